@@ -514,6 +514,32 @@ def main(run):
                                 dict(dsc, expected_values=list(map(float, xw)))))
             else:
                 distinct.add(("model-layer", mname, cp.name))
+    # ... and for the angles of oriented models in 2-D: the jitter is a deviation around zero with an absolute width, cut at
+    # the angle's declared limits [-360, 360] whatever the view angle is
+    stats["model_layer_angles"] = 0
+    for mname in ["cylinder", "parallelepiped"] + (["ellipsoid", "core_shell_cylinder", "triaxial_ellipsoid"] if thorough else []):
+        minfo = load_model_info(mname)
+        for cp in [c_ for c_ in minfo.parameters.call_parameters if c_.type == "orientation"]:
+            lo_, hi_ = cp.limits
+            view_ = rng.choice([-150.0, -90.0, 35.0, 150.0, 300.0, rng.uniform(-350, 350)])
+            dist = rng.choice(["gaussian", "uniform", "rectangle"])
+            wd_, ns_, n_ = rng.choice([40.0, 130.0, 400.0]), rng.choice([3.0, 2.0]), rng.choice([9, 31])
+            pars_ = {cp.name: view_, cp.name + "_pd": wd_, cp.name + "_pd_n": n_, cp.name + "_pd_nsigma": ns_, cp.name + "_pd_type": dist}
+            mesh_ = get_mesh(minfo, pars_, dim="2d")
+            k_ = [c_.name for c_ in minfo.parameters.call_parameters].index(cp.name)
+            _, xv, wv = mesh_[k_]
+            xv, wv = np.asarray(xv, "d"), np.asarray(wv, "d")
+            xw, ww = weights.get_weights(dist, n_, wd_, ns_, view_, (lo_, hi_), False)
+            evals += 1; stats["model_layer_angles"] += 1
+            dsc = dict(model=mname, parameter=cp.name, declared_limits=[lo_, hi_], dist=dist, view_angle=view_, width=wd_, npts=n_, nsigmas=ns_, values=list(map(float, xv)))
+            if len(xv) and (xv.min() < lo_ or xv.max() > hi_):
+                run.add(Finding("C02:model-layer:angle-limits", "%s: the jitter mesh for %s (%s, view angle %.4g, width %.4g, %d points) reaches %.6g .. %.6g, outside the declared limits [%r, %r]" % (
+                    mname, cp.name, dist, view_, wd_, n_, xv.min(), xv.max(), lo_, hi_), dsc))
+            elif len(xv) != len(xw) or not np.allclose(xv, xw, rtol=1e-14, atol=1e-12) or not np.allclose(wv, ww, rtol=1e-12, atol=0):
+                run.add(Finding("C02:model-layer:angle-weights", "%s: the jitter mesh for %s (%s, view angle %.4g, width %.4g) has %d points, the distribution around zero cut at [%r, %r] has %d" % (
+                    mname, cp.name, dist, view_, wd_, len(xv), lo_, hi_, len(xw)), dict(dsc, expected_values=list(map(float, xw)))))
+            else:
+                distinct.add(("model-layer-angle", mname, cp.name))
     # ---- correspondence, pass A: value grids from the Coq model
     traces = 0
     if not run.proof_broken():
